@@ -1,7 +1,7 @@
 // native replay for C19 (clones of objects with owned sub-objects): real objects from the real factories, every owned
 // sub-object given NON-default parameters (each numeric parameter moved to another value of its own domain), then the real
 // clone() / copy constructor / copy assignment, and a comparison of ids and parameters of the copy and of each owned sub-object
-// with the source's.  usage: C19_clone_replay <solver|mlparams|functional|gboost>      exit 1: some copy differs
+// with the source's.  usage: C19_clone_replay <solver|mlparams|functional|gboost|factories>      exit 1: some copy differs
 #include <nano/function.h>
 #include <nano/function/constraint.h>
 #include <nano/gboost/model.h>
@@ -10,6 +10,12 @@
 #include <nano/splitter.h>
 #include <nano/tuner.h>
 #include <nano/wlearner.h>
+#include <nano/datasource.h>
+#include <nano/generator.h>
+#include <nano/linear.h>
+#include <nano/loss.h>
+#include <nano/lsearch0.h>
+#include <nano/lsearchk.h>
 #include <iostream>
 
 using namespace nano;
@@ -183,6 +189,47 @@ void replay_gboost()
     assigned      = model;
     check(assigned, "assignment of gboost model");
 }
+// every id of one factory: the object reports the id it was registered under; with every numeric parameter moved to a non-default
+// value its clone() is a new object with the same id and equal parameters, and modifying the clone leaves the original untouched
+template <class tobject>
+void replay_factory(const string_t& what)
+{
+    for (const auto& id : tobject::all().ids())
+    {
+        auto object = tobject::all().get(id);
+        expect(static_cast<bool>(object), what + " <" + id + ">: get() returned null for a listed id");
+        if (!object) { continue; }
+        expect(object->type_id() == id, what + " <" + id + ">: reports the id <" + object->type_id() + ">");
+        if constexpr (std::is_base_of_v<configurable_t, tobject>) { perturb(*object); }
+        const auto clone = object->clone();
+        expect(clone && clone.get() != object.get(), what + " <" + id + ">: clone() is not a new object");
+        if (!clone) { continue; }
+        expect(clone->type_id() == object->type_id(), what + " <" + id + ">: the clone reports the id <" + clone->type_id() + ">");
+        if constexpr (std::is_base_of_v<configurable_t, tobject>)
+        {
+            expect(same(*object, *clone), what + " <" + id + "> (non-default parameters): the clone's parameters differ");
+            const auto before = object->parameters();
+            perturb(*clone);
+            expect(object->parameters() == before, what + " <" + id + ">: modifying the clone changed the original");
+        }
+    }
+    expect(!tobject::all().get("no-such-id"), what + ": get() of an unknown id is not null");
+}
+
+void replay_factories()
+{
+    replay_factory<solver_t>("solver");
+    replay_factory<lsearch0_t>("lsearch0");
+    replay_factory<lsearchk_t>("lsearchk");
+    replay_factory<loss_t>("loss");
+    replay_factory<splitter_t>("splitter");
+    replay_factory<tuner_t>("tuner");
+    replay_factory<generator_t>("generator");
+    replay_factory<wlearner_t>("wlearner");
+    replay_factory<linear_t>("linear");
+    replay_factory<datasource_t>("datasource");
+    replay_factory<function_t>("function");
+}
 } // namespace
 
 int main(int argc, char** argv)
@@ -192,6 +239,7 @@ int main(int argc, char** argv)
     if (what == "mlparams" || what == "all") { replay_mlparams(); }
     if (what == "functional" || what == "all") { replay_functional(); }
     if (what == "gboost" || what == "all") { replay_gboost(); }
+    if (what == "factories" || what == "all") { replay_factories(); }
     std::cout << (failures == 0 ? "OK" : "FAILED") << ": " << failures << " difference(s)" << std::endl;
     return failures == 0 ? 0 : 1;
 }
